@@ -1,6 +1,7 @@
 """C03 Every single typing error in a valid IBAN is detected (DESIGN 7/C03)."""
 from __future__ import annotations
 
+from ..oracles import nat as onat
 from ..oracles.core import ASCII_DIGITS, ASCII_UPPER
 from ..runner import HarnessError, Rec
 from ._shared import gen, oracle
@@ -11,17 +12,20 @@ def check_mutant(rec, base, mutant, kind, pos):
     inp = {"base": base, "mutant": mutant, "kind": kind, "pos": pos}
     if oracle().accept_norm(mutant):
         raise HarnessError(f"reference accepts a single-error mutant {mutant} of {base}: oracle or generator is wrong")
-    try:
-        IBAN(mutant)
-    except SchwiftyException:
-        return
-    except Exception as e:  # noqa: BLE001
-        rec.fail(f"crash|{type(e).__name__}|{frame_of(e)}", "mutant_rejected", inp, "library error",
-                 f"{type(e).__name__}: {e}")
-        return
     z = "cc" if pos < 2 else ("cd" if pos < 4 else "bban")
-    rec.fail(f"undetected|{kind}|{z}|{'letter' if mutant[pos].isalpha() else 'digit'}", "mutant_rejected", inp,
-             "rejected", "accepted")
+    for how, fn in (("ctor", lambda: IBAN(mutant)), ("ctor+national", lambda: IBAN(mutant, validate_bban=True)),
+                    ("validate+national", lambda: IBAN(mutant, allow_invalid=True).validate(validate_bban=True))):
+        try:
+            fn()
+        except SchwiftyException:
+            continue
+        except Exception as e:  # noqa: BLE001
+            rec.fail(f"crash|{type(e).__name__}|{frame_of(e)}", "mutant_rejected", inp, "library error",
+                     f"{type(e).__name__}: {e}")
+            return
+        rec.fail(f"undetected|{kind}|{z}|{'letter' if mutant[pos].isalpha() else 'digit'}|{how}", "mutant_rejected", {**inp, "how": how},
+                 "rejected", "accepted")
+        return
 
 
 def replay(rec, case):
@@ -60,6 +64,12 @@ def shard(arg):
     for v in variants + ["self-similar"] * (2 if tier == "quick" else 10) + ["near-self-similar"] * (12 if tier == "quick" else 150):
         base = (g.self_similar_iban(cc, rng) if v == "self-similar" else
                 g.near_self_similar_iban(cc, rng) if v == "near-self-similar" else g.iban(cc, rng, v))
+        if v == "random" and cc in onat.LISTED:
+            # nationally valid bases for the countries with a national algorithm (national validation is requested as well)
+            b = g.natvalid_bban(cc, rng)
+            if b:
+                base = g.iban_of(cc, b)
+                rec.classes["base-nationally-valid"] += 1
         if base is None:
             continue
         if "self-similar" in v:
@@ -108,4 +118,4 @@ def run(ctx):
                        "reference also rejects it (otherwise harness error).")
     ctx.assumptions = ["'same kind' = ASCII digit for digit, ASCII upper-case letter for letter"]
     ctx.pmap(shard, [(cc, ctx.seed, ctx.tier) for cc in oracle().countries()])
-    ctx.require_classes("replace-digit", "replace-letter", "swap-digit", "swap-letter", "base-self-similar", "base-near-self-similar")
+    ctx.require_classes("replace-digit", "replace-letter", "swap-digit", "swap-letter", "base-self-similar", "base-near-self-similar", "base-nationally-valid")
